@@ -5,6 +5,20 @@ V = os.path.dirname(os.path.dirname(os.path.abspath(__file__)))
 props = [json.loads(l) for l in open(os.path.join(V, "properties.jsonl"))]
 
 CLAIMS = {
+ "C03": dict(
+   text="TLC runs the Assembler.tla state machine (Place every op at a fresh offset, then Patch every jump-carrying op against the "
+        "placed offsets, tables aligned, no pseudo op, table arity) over every recorded compile result of the ExplorerScript "
+        "compiler (enumerated + random programs, macro/import trees) and the SsbScript compiler (direct and via is-ssb-script).",
+   ref="§3 C03", technique="TLC trace validation of recorded compile results against the Assembler.tla consumer state machine",
+   note="bounded/sampled program families; SsbScript sources use label markers for all jump slots"),
+ "C05": dict(
+   text="Three TLA+ models bound to the real compiler: (1) the source-semantics x bytecode product (macro call = push call site, "
+        "parameters resolved through the stack, return pops, labels private) model-checked on macro programs incl. all DAGs on <=4 "
+        "macros x all definition orders and multi-file trees; (2) MacroOrder.tla: the resolver design over all DAGs (TLC, N<=5) and "
+        "the recorded macro_resolution_order of every compile must be topological and the compile must succeed; (3) Imports.tla: "
+        "import resolution over an abstract file system vs. the file the real compiler read.",
+   ref="§3 C05", technique="TLC model checking of the inlining-semantics product + design model of the resolver + import-resolution state machine, all fed with real compile results",
+   note="bounded call graphs (<=5 macros), <=3 files, unique parameter names, lexical parameter resolution"),
  "C01": dict(
    text="TLC model-checks, for every accepted program of a bounded enumerated family (every construct shape in one-hole contexts, "
         "pairwise nesting, label/jump/call graphs, all surface forms) plus random programs, the lock-step product of the source "
